@@ -1342,3 +1342,10 @@ struct FourTuple {
     // A single socket can only listen on a single port, so no need to store it explicitly
     local_ip: Option<IpAddr>,
 }
+
+#[cfg(feature = "__verif-hooks")]
+#[allow(missing_docs, unreachable_pub, dead_code, unused_imports, unused_qualifications)]
+pub mod verif {
+    use super::*;
+    include!(concat!(env!("QUINN_VERIF_HOOKS"), "/proto/endpoint.rs"));
+}
